@@ -4,7 +4,7 @@ import re
 from concurrent.futures import ThreadPoolExecutor
 
 from checks import c03
-from lib import bindings, gdsgen, schemagen
+from lib import bindings, escape_check, gdsgen, schemagen
 from lib.vcommon import coq_list, coq_str
 
 HEADER = ("From Coq Require Import String List ZArith Bool.\n"
@@ -125,6 +125,123 @@ def full_fields(t):
 _LISTS = {}
 
 
+def wellformed_part(ck):
+    d = escape_check.translate(ck)
+    ok = False
+    if d is not None:
+        ok, out = ck.coqc(ck.gen_v("Gen_Escape.v", d["coq"]))
+        ck.oblige("Gen_Escape.v:compiles", ok, out[-1500:], kind="translate")
+    held = escape_check.instances(ck, "Inst_Escape.v", escape_check.INST_TABLES) if ok else []
+    if len(held) == len(escape_check.INST_TABLES):
+        ck.compile_props("C02_wellformed.v")
+    elif ok:
+        escape_check.props_split(ck, "C02_wellformed.v")
+    else:
+        for nm in ("C02_wellformed_attribute", "C02_wellformed_text"):
+            ck.oblige("Props_C02_wellformed.v:" + nm, False, "the escaping functions of nml.py could not be translated", kind="theorem")
+
+
+def free_string_members(L, c):
+    """(python member, is_attribute) of the members of type c that take any xs:string"""
+    out = []
+    for a in L.all_attrs(c):
+        st = L.st[a["st"]]
+        if st["prim"] == "string" and not st["enums"] and not st["patterns"] and a["fixed"] is None:
+            out.append((a["py"], True))
+    for e in L.all_elems(c):
+        if e["type"] in L.st and L.st[e["type"]]["prim"] == "string" and not L.st[e["type"]]["patterns"]:
+            out.append((e["py"], False))
+    return out
+
+
+def special_character_cases(L, G, rng, n_random):
+    """well-formedness: every special string in an attribute and in a text child of fixed hosts (component alone and
+    inside a whole document), then random hosts"""
+    cases = []
+    root = L.S["root"][1]
+
+    def host(c, member, text, label):
+        t = G.tree(c, 0, force={"include": 0} if c == root else None)
+        t["kw"] = [kv for kv in t["kw"] if kv[0] != member] + [[member, {"s": text}]]
+        cases.append({"tree": t, "tag": "probe_" + c, "doc": False, "type": c, "role": "special:" + label, "depth": 0})
+        steps = G.steps_to_document(c)
+        if steps is not None and c != root:
+            d, path = G.embed(t, steps)
+            cases.append({"tree": d, "tag": "neuroml", "doc": True, "type": c, "role": "special-in-document:" + label, "depth": len(path)})
+    hosts = [(c, m, isattr) for c in L.T.order for m, isattr in free_string_members(L, c)]
+    fixed = [h for h in hosts if (h[0], h[1]) in (("Property", "value"), ("Property", "tag"), ("NeuroMLDocument", "notes"),
+                                                  ("Cell", "notes"))]
+    for i, text in enumerate(schemagen.SPECIAL_STRINGS):
+        for c, m, isattr in fixed[:2] + fixed[2 + i % 2:3 + i % 2]:
+            host(c, m, text, "attribute" if isattr else "text")
+    for _ in range(n_random):
+        c, m, isattr = rng.choice(hosts)
+        host(c, m, rng.choice(schemagen.SPECIAL_STRINGS) + "".join(rng.choice(schemagen.SPECIAL_CHARS + "ab ") for _ in range(rng.randrange(0, 6))),
+             "attribute" if isattr else "text")
+    return cases
+
+
+def history_part(ck, L, G, order, n):
+    """validate() is a function of the tree: the same objects validated twice, violated, restored"""
+    rng = ck.rng
+    cases = [{"tree": c03.T_("NeuroMLDocument", id=c03.s_("doc"),
+                             iaf_cells={"l": [c03.T_("IafCell", id=c03.s_("iaf"), **c03.IAF)]},
+                             pulse_generators={"l": [c03.T_("PulseGenerator", id=c03.s_("pg"), delay=c03.s_("10ms"),
+                                                            duration=c03.s_("50ms"), amplitude=c03.s_("0.2nA"))]}),
+              "tag": "neuroml", "path": [["iaf_cells", 0]], "member": "thresh", "bad": c03.s_("-50"), "type": "IafCell", "facet": "pattern", "depth": 1}]
+    tr = [t for t in c03.triples(L, G) if t[4][0] in ("drop", "set") and t[2] not in ("integer-range", "fixed")]
+    rng.shuffle(tr)
+    for (c, member, facet, inh, op) in tr[:n]:
+        d = rng.choice([0, 1, 2])
+        steps = G.parent_steps(c, d) if d else []
+        if steps is None:
+            steps, d = [], 0
+        t = G.tree(c, 0)
+        if not any(kv[0] == member for kv in t["kw"]):
+            continue       # an optional member that is absent: nothing to restore to
+        root, path = G.embed(t, steps)
+        cases.append({"tree": root, "tag": "probe_" + root["cls"], "path": path, "member": member,
+                      "bad": None if op[0] == "drop" else op[1], "type": c, "facet": facet, "depth": d})
+    out = ck.impl("c02_impl.py", {"mode": "history", "order": order, "cases": cases}, timeout=1200)
+    corr_cases, corr_res = [], []
+    for cs, r in zip(cases, out["results"]):
+        ck.tally("history")
+        if "err" in r:
+            ck.tally("history:skipped:" + r["err"].split(":")[0])
+            continue
+        by = {s["label"]: s for s in r["steps"]}
+        ck.count(1, nontrivial_key=("history", cs["type"], cs["member"], cs["facet"], cs["depth"]))
+        inp = {k: cs[k] for k in ("tree", "tag", "path", "member", "bad", "type", "facet", "depth")}
+        inp["sequence"] = "validate; validate; set member := bad; validate; restore member; validate; validate"
+        problems = []
+        if by["fresh"]["rec"]["raised"] is None and by["again"]["rec"]["raised"] is not None:
+            problems.append("the second validate() of an unchanged conforming tree raises")
+        if by["violated"]["rec"]["raised"] == "ValueError" or by["violated"]["node_nonrec"]["raised"] == "ValueError":
+            for lab in ("restored", "restored-again"):
+                for k in ("rec", "nonrec", "node_nonrec"):
+                    if by[lab][k]["raised"] is not None and r["rebuilt"]["rec"]["raised"] is None:
+                        problems.append("after the value is restored, validate (%s, step %s) still raises: %s" % (
+                            k, lab, (by[lab][k].get("text") or "")[:200]))
+        if by["restored"]["obj"] != r["rebuilt"]["obj"]:
+            ck.tally("history:restored-tree-differs-from-rebuilt")
+        if problems:
+            ck.witness("C02:validate-depends-on-history",
+                       "validate() is not a function of the tree: " + problems[0] + " (a freshly built equal tree validates; "
+                       "libxml2 on the written XML: %s)" % ("valid" if r.get("lx", {}).get("valid") else r.get("lx")),
+                       input=inp, expected="no exception", observed=problems[:4])
+        for s in r["steps"]:
+            corr_cases.append(dict(cs, step=s["label"]))
+            corr_res.append({"obj": s["obj"], "rec": s["rec"], "nonrec": s["nonrec"]})
+    a = out.get("add", {})
+    ck.extra["add_history"] = a
+    if a and (a.get("bad_add") != "ValueError" or a.get("good_add") != "accepted" or a.get("cells_after_bad_add") != 0
+              or a.get("doc", {}).get("raised") is not None or a.get("doc_again", {}).get("raised") is not None):
+        ck.witness("C02:add-then-validate-history", "add(..., validate=True) failing and then succeeding leaves a parent that "
+                   "does not validate (or the failed add left its component behind): %s" % json.dumps(a)[:400], input=a)
+    # the model is a pure function of the tree: every step is a correspondence case
+    c03.correspondence(ck, corr_cases, corr_res, label="Cases_C02_history")
+
+
 # ----------------------------------------------------------------------------- generators
 def conforming_cases(ck, L, G, per_type, embed_per_type, n_docs):
     rng = ck.rng
@@ -231,6 +348,9 @@ def run(ck):
         ck.compile_props()
     else:
         ck.oblige("Props_C02.v", False, "instance obligations failed", kind="theorem")
+    # ---- C02_wellformed: the escaping functions of nml.py are the reference ones (tables regenerated by tr_escape,
+    # instance obligations and round-trip theorems shared with C01)
+    wellformed_part(ck)
     # ---- the float-formatting hypotheses of C02_valid, exercised with the real formatters
     ff = ck.impl("c02_impl.py", {"mode": "floatfuzz", "n": ck.n(20000, 400000), "seed": ck.rng.randrange(1 << 30)}, timeout=900)
     ck.oblige("hypotheses:float-formatting(fmt_double_exact,fmt_float_monotone)", not ff["bad"], json.dumps(ff["bad"][:5]),
@@ -242,6 +362,7 @@ def run(ck):
     # ---- the property on the real code
     cases = conforming_cases(ck, L, G, per_type=ck.n(2, 12), embed_per_type=ck.n(1, 8), n_docs=ck.n(25, 400))
     rng = ck.rng
+    cases = special_character_cases(L, G, rng, ck.n(40, 600)) + cases      # deterministic well-formedness cases first
     if not iok:
         # steer the generator to the classes named by the broken agreement obligations (and their subclasses)
         dg = c03.diagnose(ck, L)
@@ -282,7 +403,9 @@ def run(ck):
                        input=inp, observed=r.get("text_err"))
             continue
         if not r["lx"]["wellformed"]:
-            ck.witness("C02:%s:not-wellformed" % r["obj"]["cls"], "written XML is not well-formed: " + str(r["lx"]["err"]), input=inp)
+            ck.witness("C02:written-xml-not-wellformed", "the XML written for a conforming %s is not well-formed: %s" % (
+                r["obj"]["cls"], r["lx"]["err"]), input=inp, expected="well-formed XML", observed=(r.get("text") or "")[:400],
+                broken="Inst_Escape.v (quote_attrib / quote_xml tables)")
             continue
         if not r["lx"]["valid"]:
             ck.witness(K_ORDER if pairs else "C02:%s:written-xml-invalid" % cs["type"],
@@ -315,6 +438,7 @@ def run(ck):
             xcases.append((r["obj"]["cls"], r["xml"], r["lx"]["valid"], "violated:%s.%s:%s" % (cs["type"], cs["member"], cs["facet"])))
     xsd_correspondence(ck, xcases)
     conforms_correspondence(ck, ccases)
+    history_part(ck, L, G, order, ck.n(60, 800))
     # the model of validate on the conforming trees too
     c03.correspondence(ck, cases[:ck.n(200, 1500)], [dict(r, nonrec=r.get("nonrec", {"raised": None, "msgs": []})) for r in res[:ck.n(200, 1500)]],
                        label="Cases_C02_validate")
@@ -325,6 +449,15 @@ def replay(ck, data):
     tab = bindings.translate(ck)
     T = bindings.Tables(tab)
     order = {c: T.field_order(c) for c in T.order}
+    if data.get("key") == "C02:validate-depends-on-history":
+        r = ck.impl("c02_impl.py", {"mode": "history", "order": order, "cases": [inp]})["results"][0]
+        steps = [{"step": s["label"], "validate(recursive=True)": s["rec"].get("raised"), "validate()": s["nonrec"].get("raised"),
+                  "component.validate()": s["node_nonrec"].get("raised")} for s in r.get("steps", [])]
+        print(json.dumps({"stored": {k: data.get(k) for k in ("key", "what")}, "sequence": inp.get("sequence"), "now": steps,
+                          "freshly_built_equal_tree": r.get("rebuilt", {}).get("rec", {}).get("raised"), "error": r.get("err")}, indent=1)[:6000])
+        bad = any(s["step"].startswith("restored") and (s["validate(recursive=True)"] or s["validate()"] or s["component.validate()"])
+                  for s in steps)
+        return 1 if bad else 0
     r = ck.impl("c02_impl.py", {"order": order, "cases": [inp], "want": ["rec", "text", "file"]})["results"][0]
     print(json.dumps({"stored": {k: data.get(k) for k in ("key", "what", "expected", "observed")},
                       "now": {"validate(recursive=True)": r.get("rec"), "libxml2": r.get("lx"),
